@@ -344,8 +344,14 @@ def run(ctx, out):
     extra = [X.gen_case(ctx.rng("glob", i), CFG_GLOB) for i in range(ctx.n(40, 600))]
     for i, c in enumerate(extra):
         c["label"] = "impl-only-vocabulary/%d" % i
+    from . import c09
+    # chains with two and three uncached cells in a row below a cached top, the leaf reading by attribute path
+    chains = [c09.chain_case(n, form, ls, fl, flip) for n, form, ls, fl, flip in (
+        (3, "ra-other", 0, (False, False, True), False), (3, "ra-own", 1, (False, False, True), True),
+        (4, "ra-other", 0, (False, False, False, True), False), (4, "ra-other", 1, (True, False, False, True), True),
+        (4, "rg2", 0, (False, False, True, True), False), (3, "rg1", 1, (False, False, True), False))]
     stats = X.run_family(ctx, out, CFG, oracle, 150, 2500,
-                         structured=scenarios() + scenario_cases() + visible_name_cases() + X.copy_cases() + extra
+                         structured=scenarios() + scenario_cases() + visible_name_cases() + X.copy_cases() + chains + extra
                          + dagenum.sample_cases(ctx, 4, ctx.n(12, 200)))
     item_space_names(out, stats)
     dag_enumeration(ctx, out, stats)
